@@ -13,6 +13,7 @@ RULES = {
     "C10.R3": "value domain: every value stored by the save paths is a plain-tensor expression or a string expression",
     "C10.R4": "literal round trip: for each meta key the writer's encoding and the reader's decoding agree (str <-> ast.literal_eval, qtype.name <-> qtypes[...])",
     "C10.R5": "safetensors: plain tensors go to tensors, everything else to metadata; loading merges both",
+    "C10.R10": "a reloaded unfrozen model computes with the weights it was given: the quantized weight is derived from the current self.weight on every access (no cache survives the in-place copy of load_state_dict) - the weight-source rule shared with C08.R7 / C09.R2-R3",
     "C10.R6": "derived state: attributes that __init__ derives from weight_qtype are re-derived wherever weight_qtype is reassigned",
     "C10.R7": "requantize coverage: a kwarg that gates the creation of a registered module class is derived from the state_dict when re-quantizing",
     "C10.R8": "requantize order: device captured -> to(meta) -> quantize -> to_empty(cpu) -> load_state_dict -> to(device)",
@@ -75,6 +76,8 @@ def run(chk):
     module_load(chk)
     safetensors(chk)
     derived_state(chk)
+    from .c09 import qweight_source
+    qweight_source(chk, r2="C10.R10", r3="C10.R10")
     requantize_rules(chk)
     chk.assume("torch.save/torch.load and safetensors store plain tensors and strings faithfully", "nn.Module.load_state_dict loads registered buffers and parameters by name")
 
